@@ -123,6 +123,9 @@ QUERIES = [
     ("parseU", "degF / second", "default"), ("parseU", "degF / second", "nodelta"),
     ("parseU", "kiloMETER", "ci"), ("parseU", "kiloMETER", "default"), ("parseU", "kHZ", "ci"), ("parseU", "kHZ", "default"), ("name", "kHZ"), ("nameCI", "kHZ"),
     ("contains", "kHZ"), ("contains", "kiloMETER"),
+    # conversions that name contexts for one call - successful and failing - are questions too: nothing of them may linger
+    ("toctx", "nanometer", "terahertz", "sp"), ("itoctx", "nanometer", "terahertz", "sp"), ("itoctx", "nanometer", "kelvin", "sp"), ("toctx", "nanometer", "kilogram", "sp"),
+    ("itoctx", "eV", "kelvin", "boltzmann"), ("itoctx", "eV", "meter", "boltzmann"),
     # listings restricted to a group / a system, and unrestricted (one cached set per dimensionality serves all)
     ("compatG", "meter", "USCSLengthInternational"), ("compatG", "meter", "imperial"), ("compatG", "gram", "AvoirdupoisUS"), ("compatG", "meter", "root"),
     # base units under an explicitly named system, whatever the default system is
@@ -167,6 +170,12 @@ def ask(u, q):
             if k == "sbase":
                 f, un = u.get_base_units(q[1], system=q[2])
                 return [digest(f), digest(1 * un)]
+            if k in ("toctx", "itoctx"):
+                qq = u.Quantity(500.0, q[1])
+                if k == "toctx":
+                    return digest(qq.to(q[2], q[3]))
+                qq.ito(q[2], q[3])
+                return digest(qq)
             if k == "parseU":
                 un = u.parse_units(q[1], case_sensitive=False) if q[2] == "ci" else u.parse_units(q[1], as_delta=False) if q[2] == "nodelta" else u.parse_units(q[1])
                 return digest(1 * un)
